@@ -149,12 +149,20 @@ WALKER_RULE = (" walker (hook H14): the REAL PageWalker<Blake3Hasher> over an in
                "PageDiff: a page staying in its bucket names every slot whose content differs from the stored content, a page going to a fresh bucket names every meaningful slot, a cleared page was stored and is not required.")
 BRANCHUPD_FIRSTLEAF = {"cmd": "branchupd-firstleaf", "mode": "branchupd", "cases": {"quick": 1, "thorough": 1}, "corpus": True}
 BRANCHUPD_RUN = {"cmd": "branchupd", "mode": "branchupd", "cases": {"quick": 360, "thorough": 9000}, "shards": {"quick": 4, "thorough": 16}}
+SEEK_RUN = {"cmd": "seek", "mode": "seek", "cases": {"quick": 360, "thorough": 9000}, "shards": {"quick": 6, "thorough": 16}}
 OVERFLOW_RUN = {"cmd": "overflow", "mode": "overflow", "cases": {"quick": 160, "thorough": 3000}, "shards": {"quick": 4, "thorough": 16}}
 UNIT_RULE = (" Unit-level differentials through nomt::verif_api: triepos (every function of trie_pos.rs / page_id.rs / page_region.rs and the page node layout on positions of every depth 1..256, moves, page ids of depth 0..42, "
              "malformed inputs where the Rust asserts); shards (worker ranges, batch ownership, witnessed_start, child-page roots, pending list and the witness exactly as join assembles it, recorded from REAL updates with worker counts "
              "{1,2,3,5,6,7,12,33,64} and root-page terminals straddling region boundaries); delta / delta-log (the priors the real delta builder computes on overlay chains that delete / insert / overwrite the same keys, small and overflow "
              "values, blind writes and read-then-writes; the real Rollback alone: commit, commit_nonblocking busy, truncate, sync, reopen); overflow (chunk / read / AsyncReader / delete / cell codec on a scratch file at every length boundary: "
              "1333, k*4092 +- 1, the 15 -> 16 pointer spill, up to 4.2 MB). leafupd (the REAL LeafUpdater on caller-supplied base leaves: ingest / digest / merges across following leaves / bulk splits, cells around the size thresholds, overflow cells; produced leaves, separators, cutoffs, the overflow-callback log and the private state after every call). branchupd (hook H14: the REAL BranchUpdater / BranchOpsTracker / BranchGauge / build_branch on base nodes built with the real BranchNodeBuilder, step by step, and the WHOLE real branch stage — run_worker, NodesTracker, index update — on the same level: shared prefixes of 8..31 bytes followed by outsiders, prefix compression stopped inside a node, nodes at BRANCH_NODE_BODY_SIZE and at the merge threshold, bulk splits, KeepChunk splitting, deletes that empty nodes, merges cascading over several nodes, Update of existing separators, 1..3 rounds on the levels the real code produced; produced nodes with every stored separator length, cutoffs, DigestResults, the private ops / gauge after every call, the resulting level and the freed page numbers). Every line vs the Lean mirror and vs independent harness oracles.")
+SEEK_RULE = (" seek (hook H18): the REAL SeekRequest state machine (new / next_query / continue_seek / continue_leaf_fetch / continue_leaves_fetch with the real reconstruct_pages / range_bounds) over a real PageSet, PageCache and LiveOverlay "
+             "and hand-built b-tree leaves, branch nodes and staging maps, driven step by step: the harness answers every page and leaf request itself, in any order, for 1..7 interleaved keys sharing one page set (cold / partly warm / warm cache, "
+             "pages carried by overlays, stale page images at elided page ids in overlays and in the cache, a new or frozen page set between seekers). Key sets: clusters of 2..41 keys under 12..120-bit prefixes (18/19/20/21/22 around the elision "
+             "threshold, elided pages below elided pages, stored pages the rule would elide), deep forks, tiny sets, terminals at 6k-1/6k/6k+1; overlay chains of 0..3 overlays with inserts, overwrites, deletions, NAKED deletions, insert-then-delete "
+             "across overlays, staging inserts / deletions, inline and overflow values. Every intermediate request state (position, node index, page id, sibling count and last sibling, fetch state, awaited query, ios) and every result vs the Lean mirror; "
+             "oracles: reference-trie proof, the real verifier on the resulting PathProof, requested pages on the key's path / leaves inside the key range, every page the seek put into the page set slot by slot vs the reference trie, "
+             "the chain's value_iter vs the BTreeMap fold; a malformed stream (answers nobody asked for, wrong leaves, a tree whose first separator is not the zero key) where panics are answers.")
 IMG_RUN = {"cmd": "image", "mode": "image", "cases": {"quick": 24, "thorough": 400}, "shards": {"quick": 8, "thorough": 16}}
 # directed replay (corpus): history 18 of image seed 1000 — 1616 fat-valued keys, half of them under a 200-bit common prefix;
 # the commit that splits the branch node writes a separator whose last bit is lost (see KNOWN finding candidate F13 in the report)
@@ -275,8 +283,8 @@ PROPS = {
     "C05": {
         "lines": ['prove', 'pshash', 'psnext', 'psalloc', 'pslookup', 'iter', 'bti', 'leaffetch', 'seeknode'],
         "tags": ['C05'],
-        "runs": DB_SCRIPT(["script-elision-threshold"]) + [DB("kv", 120, 1200, nops=14), DB("overlay", 80, 800, nops=14), DB("overlay", 120, 1200, nops=16, big=True), DB("reopen", 60, 600, nops=14), DB("kv", 4, 40, nops=14, scale=100, shards_q=4), dict(ALLOC_PROBE), dict(ALLOC_LOOKUP), dict(OVL_RUN), dict(TRIEPOS_RUN)],
-        "rule": DB_RULE + OVL_RULE + " C05: Session::prove for present keys, absent keys diverging from a present key at interesting depths (page boundaries 6k-1..6k+1, just below the terminal, 246..255) and random keys, on plain / overlay sessions, cold caches after reopen; the proof object must equal the Lean proveSpec (terminal + every sibling) and verify + confirm the session's view with the real verifier.",
+        "runs": DB_SCRIPT(["script-elision-threshold"]) + [DB("kv", 120, 1200, nops=14), DB("overlay", 80, 800, nops=14), DB("overlay", 120, 1200, nops=16, big=True), DB("reopen", 60, 600, nops=14), DB("kv", 4, 40, nops=14, scale=100, shards_q=4), dict(ALLOC_PROBE), dict(ALLOC_LOOKUP), dict(OVL_RUN), dict(TRIEPOS_RUN), dict(SEEK_RUN)],
+        "rule": DB_RULE + OVL_RULE + SEEK_RULE + " C05: Session::prove for present keys, absent keys diverging from a present key at interesting depths (page boundaries 6k-1..6k+1, just below the terminal, 246..255) and random keys, on plain / overlay sessions, cold caches after reopen; the proof object must equal the Lean proveSpec (terminal + every sibling) and verify + confirm the session's view with the real verifier.",
         "trusted_base": API_TB, "assumptions": API_ASSUME,
     },
     "C09": {
@@ -292,8 +300,8 @@ PROPS = {
         "lines": ['begin', 'read', 'prove', 'finish', 'overlay', 'ocommit', 'otrycommit', 'root', 'odrop', 'sdrop', 'dread',
                   'live', 'val', 'page', 'commit', 'drop', 'dropl', 'pstatus', 'reset', 'seeknode', 'iter'],
         "tags": ['C11', 'C01', 'C02', 'C05'],
-        "runs": DB_SCN(["rejected-overlay-marks-committed"]) + [DB("overlay", 200, 2000, nops=18), DB("general", 60, 600, nops=16), dict(OVL_RUN), dict(DELTA_RUNS[0])],
-        "rule": DB_RULE + OVL_RULE + " C11 focus: overlay trees (chains, sibling forks, dropped and committed ancestors), sessions on every live fork, wrong / incomplete / reordered ancestor lists, in-order and out-of-order overlay commits.",
+        "runs": DB_SCN(["rejected-overlay-marks-committed"]) + [DB("overlay", 200, 2000, nops=18), DB("general", 60, 600, nops=16), dict(OVL_RUN), dict(DELTA_RUNS[0]), dict(SEEK_RUN)],
+        "rule": DB_RULE + OVL_RULE + SEEK_RULE + " C11 focus: overlay trees (chains, sibling forks, dropped and committed ancestors), sessions on every live fork, wrong / incomplete / reordered ancestor lists, in-order and out-of-order overlay commits.",
         "trusted_base": API_TB, "assumptions": API_ASSUME,
     },
     "C12": {
